@@ -132,3 +132,46 @@ def spelling_routes(F, fid, opaque):
         passing, wordonly = unguarded_rows(F, st.conds, is_word, fid)
         res.append((contracts.render_conds(st.conds, st, {})[:160], passing, False))
     return res
+
+
+def empty_word_outcome(F):
+    """(ok, description): string_pool::intern answers the empty word with the process-wide empty String and creates nothing for it;
+    every other path is taken for non-empty words only."""
+    fid = 'ipr::util::string_pool::intern(std::basic_string_view<char8_t, std::char_traits<char8_t>>)'
+    f = F.need_fn(fid)
+    S = Sym(F, opaque=lambda x: F.fn.get(x) is None or F.fn[x]['name'] in ('word_if_known', 'make_string'), max_depth=40)
+    try:
+        outs = S.run(fid)
+    except Unsupported as e:
+        raise AnalysisBroken(f'{fid}: {e}')
+    W = ('param', 0)
+
+    def says_empty(c, val):
+        """True / False when the condition fixes whether the word is empty; None otherwise"""
+        if isinstance(c, tuple) and len(c) >= 4 and c[0] in ('call', 'vcall') and contracts.fn_simple(c[1]) == 'empty' and c[2] == W:
+            return bool(val)
+        if isinstance(c, tuple) and len(c) == 4 and c[0] == 'op' and c[1] in ('==', '!='):
+            for a, b in ((c[2], c[3]), (c[3], c[2])):
+                if isinstance(a, tuple) and len(a) >= 4 and a[0] in ('call', 'vcall') and contracts.fn_simple(a[1]) in ('size', 'length') and a[2] == W \
+                        and isinstance(b, tuple) and b[:2] == ('k', 0):
+                    return bool(val) if c[1] == '==' else (not val)
+        return None
+    good_empty = False
+    leaks = []
+    for st, k, v in outs:
+        if k != 'return':
+            continue
+        e = [x for x in (says_empty(c, val) for c, val in st.conds) if x is not None]
+        creates = any(x[0] == 'emplace' for x in st.effects)
+        is_const = v == ('global', 'ipr::String::empty_string()::empty') or 'empty_string' in contracts.render(v, st, {})
+        if e and e[0] is True:
+            good_empty = is_const and not creates
+        elif not e:
+            # a path that does not ask whether the word is empty: the empty word can take it
+            if not is_const:
+                leaks.append(contracts.render_conds(st.conds, st, {})[:100])
+    if not good_empty:
+        return False, 'no path answers the empty word with the process-wide empty String (String::empty_string()) without creating a node', f
+    if leaks:
+        return False, f'the empty word can take a path that yields another node ({leaks[:2]})', f
+    return True, '', f
